@@ -145,19 +145,25 @@ func (t *target) probes(idx int) string {
 	if replies != 1 {
 		return fmt.Sprintf("echo request drew %d matching replies", replies)
 	}
-	// 2. a new TCP connection to the listener, with data
-	pp := uint16(10000 + n%50000)
-	iss := uint32(n) * 104729
-	t.p4.Send(rfc.TCP{SrcPort: pp, DstPort: 80, Seq: iss, Flags: rfc.SYN, Window: 20000, RawOpts: rfc.OptMSS(1000)})
+	// 2. a new TCP connection to the listener, with data. The barrage uses source ports
+	// below 61024; a mutated frame may still have hit a probe port and left a half-open
+	// connection there (a SYN with another sequence number is then rightly refused), so
+	// up to three fresh ports are tried.
+	var pp uint16
 	var y uint32
+	iss := uint32(n) * 104729
 	got := false
-	for _, s := range t.p4.TakeFor(80, pp) {
-		if s.Has(rfc.SYN|rfc.ACK) && s.Ack == iss+1 {
-			y, got = s.Seq, true
+	for try := 0; try < 3 && !got; try++ {
+		pp = uint16(61100 + (n*3+try)%4000)
+		t.p4.Send(rfc.TCP{SrcPort: pp, DstPort: 80, Seq: iss, Flags: rfc.SYN, Window: 20000, RawOpts: rfc.OptMSS(1000)})
+		for _, s := range t.p4.TakeFor(80, pp) {
+			if s.Has(rfc.SYN|rfc.ACK) && s.Ack == iss+1 {
+				y, got = s.Seq, true
+			}
 		}
 	}
 	if !got {
-		return "a SYN to the listener drew no SYN-ACK"
+		return "a SYN to the listener drew no SYN-ACK (three fresh source ports tried)"
 	}
 	t.p4.Send(rfc.TCP{SrcPort: pp, DstPort: 80, Seq: iss + 1, Ack: y + 1, Flags: rfc.ACK, Window: 20000})
 	t.p4.Send(rfc.TCP{SrcPort: pp, DstPort: 80, Seq: iss + 1, Ack: y + 1, Flags: rfc.ACK | rfc.PSH, Window: 20000, Payload: pl})
@@ -357,6 +363,11 @@ func fdChild(t *testing.T) {
 		probeN++
 		pl := []byte(fmt.Sprintf("fd-probe-%d-%d", idx, probeN))
 		m := rfc.ICMP{Type: 8, Rest: [4]byte{0x55, byte(probeN >> 8), 0, byte(probeN)}, Payload: pl}
+		// a hostile ARP/NDP frame may have taught the stack another link address for the
+		// peer: announce the real one again (an ARP request for the stack's address)
+		a := rfc.ARP{HType: 1, PType: 0x0800, HLen: 6, PLen: 4, Op: 1, SHA: pmac, SPA: c.P4, TPA: c.S4}
+		send(rfc.EthARP, a.Bytes())
+		time.Sleep(20 * time.Millisecond)
 		// drain old replies
 		for len(replies) > 0 {
 			<-replies
